@@ -77,6 +77,11 @@ def run(ctx):
           "sub/other": {"description": "more", "definitions": {"Thing": {"type": "string", "enum": ["a", "b"]}}}}),
         ({"$id": "http://x/main", "type": "object", "properties": {"p": {"$ref": "lib/types#/$defs/T"}, "l": {"type": "array", "items": {"$ref": "lib/types#/$defs/U"}}}},
          {"lib/types": {"description": "lib", "$defs": {"T": {"type": "object", "properties": {"u": {"$ref": "#/$defs/U"}}}, "U": {"type": "integer", "minimum": 0}}}}),
+        # base names that contain a dot themselves: the reference as written then seems to end in an extension (".v1") that is none
+        ({"$id": "http://x/main", "type": "object", "properties": {"p": {"$ref": "./common.v1#/$defs/Person"}, "t": {"$ref": "lib/types.v2.draft#/$defs/T"}, "w": {"$ref": "whole.v3"}}, "required": ["p"]},
+         {"common.v1": {"description": "shared", "$defs": {"Person": {"type": "object", "properties": {"name": {"type": "string", "minLength": 1}}, "required": ["name"]}}},
+          "lib/types.v2.draft": {"description": "lib", "$defs": {"T": {"type": "integer", "minimum": 0}}},
+          "whole.v3": {"type": "object", "properties": {"k": {"type": "string"}}}}),
     ]
     for mi, (main, sibs) in enumerate(multi):
         si = len(schemas)
